@@ -130,8 +130,11 @@ def svx_variants(b):
     if b"BODY" not in ids:
         return []
     bi = ids.index(b"BODY")
-    return [("anno-before-body", iff_build(b"FORM", form, ch[:bi] + [(b"ANNO", junk(25))] + ch[bi:], False)),
-            ("auth+anno-before-body", iff_build(b"FORM", form, ch[:bi] + [(b"AUTH", junk(6)), (b"ANNO", junk(1001))] + ch[bi:], False))]
+    # even sizes: svx_read_header steps over ANNO / AUTH / (c) with the chunk size alone, without the IFF pad byte, so a chunk of odd
+    # size in front of BODY is refused on every route alike (seen with 25 bytes: "Unknown chunk marker … Resynching", SFE 105) -- not a
+    # matter of routes; the library's own ANNO chunk is 34 bytes
+    return [("anno-before-body", iff_build(b"FORM", form, ch[:bi] + [(b"ANNO", junk(26))] + ch[bi:], False)),
+            ("auth+anno-before-body", iff_build(b"FORM", form, ch[:bi] + [(b"AUTH", junk(6)), (b"ANNO", junk(1002))] + ch[bi:], False))]
 
 
 def caf_variants(b):
